@@ -1,5 +1,259 @@
 package l3
 
-import "verif/internal/vk"
+import (
+	"bufio"
+	"context"
+	"encoding/json"
+	"fmt"
+	"os"
+	"os/exec"
+	"path/filepath"
+	"runtime"
+	"runtime/debug"
+	"strings"
+	"sync"
+	"time"
 
-func histories(r *vk.Run, prop string) {}
+	"verif/internal/vk"
+)
+
+// Every history runs in its own child process (a re-exec of the monitor
+// binary in the role below): the data directory of a Manager is resolved from
+// the process environment, so this gives every history a fresh one, and a
+// crash or hang inside the real code cannot take the judge down.
+const childEnv = "VERIF_L3_CHILD"
+
+// childBound is the watchdog on one child (nominal: a few seconds).
+const childBound = 12 * time.Minute
+
+func init() {
+	specFile := os.Getenv(childEnv)
+	if specFile == "" {
+		return
+	}
+	os.Unsetenv(childEnv)
+	data, err := os.ReadFile(specFile)
+	var spec Spec
+	if err == nil {
+		err = json.Unmarshal(data, &spec)
+	}
+	if err != nil {
+		fmt.Println("l3 child: bad spec:", err)
+		os.Exit(4)
+	}
+	res := runChild(spec)
+	out, err := json.Marshal(res)
+	if err != nil {
+		fmt.Println("l3 child: result does not marshal:", err)
+		os.Exit(4)
+	}
+	tmp := filepath.Join(spec.Dir, "result.json.tmp")
+	if err := os.WriteFile(tmp, out, 0o644); err == nil {
+		err = os.Rename(tmp, filepath.Join(spec.Dir, "result.json"))
+	}
+	if err != nil {
+		fmt.Println("l3 child: cannot write result:", err)
+		os.Exit(4)
+	}
+	os.Exit(0)
+}
+
+func stack() string { return string(debug.Stack()) }
+
+func modesFor(prop string) []string {
+	switch prop {
+	case "C01":
+		return []string{"two-way-safe"}
+	case "C02":
+		return []string{"one-way-safe", "one-way-replica", "two-way-resolved"}
+	default:
+		return []string{"two-way-safe", "one-way-safe", "two-way-resolved", "one-way-replica"}
+	}
+}
+
+type childOutcome struct {
+	spec     Spec
+	res      *Result
+	exitErr  error
+	timedOut bool
+	stdio    string
+}
+
+func runOne(spec Spec) childOutcome {
+	out := childOutcome{spec: spec}
+	os.MkdirAll(spec.Dir, 0o755)
+	specFile := filepath.Join(spec.Dir, "spec.json")
+	data, _ := json.Marshal(spec)
+	if err := os.WriteFile(specFile, data, 0o644); err != nil {
+		out.exitErr = err
+		return out
+	}
+	exe := os.Getenv("VERIF_BIN")
+	if exe == "" {
+		exe, _ = os.Executable()
+	}
+	ctx, cancel := context.WithTimeout(context.Background(), childBound)
+	defer cancel()
+	cmd := exec.CommandContext(ctx, exe)
+	var env []string
+	for _, e := range os.Environ() {
+		if strings.HasPrefix(e, "MUTAGEN_DATA_DIRECTORY=") || strings.HasPrefix(e, childEnv+"=") {
+			continue
+		}
+		env = append(env, e)
+	}
+	cmd.Env = append(env, childEnv+"="+specFile, "MUTAGEN_DATA_DIRECTORY="+filepath.Join(spec.Dir, "data"))
+	stdioPath := filepath.Join(spec.Dir, "stdio.txt")
+	stdio, err := os.Create(stdioPath)
+	if err != nil {
+		out.exitErr = err
+		return out
+	}
+	cmd.Stdout, cmd.Stderr = stdio, stdio
+	out.exitErr = cmd.Run()
+	stdio.Close()
+	out.timedOut = ctx.Err() != nil
+	if b, err := os.ReadFile(stdioPath); err == nil {
+		out.stdio = string(b)
+	}
+	if b, err := os.ReadFile(filepath.Join(spec.Dir, "result.json")); err == nil {
+		var res Result
+		if json.Unmarshal(b, &res) == nil {
+			out.res = &res
+		}
+	}
+	return out
+}
+
+// harnessLog returns the harness's own lines of a child's log (the real
+// session's trace output is in the same file, between them).
+func harnessLog(dir string, max int) []string {
+	f, err := os.Open(filepath.Join(dir, "log.txt"))
+	if err != nil {
+		return nil
+	}
+	defer f.Close()
+	var lines []string
+	sc := bufio.NewScanner(f)
+	sc.Buffer(make([]byte, 1<<20), 1<<20)
+	for sc.Scan() {
+		if strings.HasPrefix(sc.Text(), "[l3]") {
+			lines = append(lines, sc.Text())
+		}
+	}
+	if len(lines) > max {
+		lines = lines[len(lines)-max:]
+	}
+	return lines
+}
+
+func tail(s string, n int) string {
+	if len(s) > n {
+		return s[len(s)-n:]
+	}
+	return s
+}
+
+// histories is the L3 workload for one of C01–C04.
+func histories(r *vk.Run, prop string) {
+	began := time.Now()
+	n := r.Pick(6, 200)
+	if (prop == "C03" || prop == "C04") && r.Quick() {
+		n = 8 // two histories per mode
+	}
+	modes := modesFor(prop)
+	base := filepath.Join(r.Scratch(), "l3")
+	specs := make([]Spec, n)
+	for i := range specs {
+		specs[i] = Spec{Prop: prop, Index: i, Mode: modes[i%len(modes)], Seed: r.Rand(fmt.Sprintf("l3-history-%d", i)).Int63(), Dir: filepath.Join(base, fmt.Sprintf("h%03d", i))}
+	}
+	workers := runtime.NumCPU() / 2
+	if workers > 8 {
+		workers = 8
+	}
+	if workers < 1 {
+		workers = 1
+	}
+	outcomes := make([]childOutcome, n)
+	var wg sync.WaitGroup
+	jobs := make(chan int)
+	var printMu sync.Mutex
+	for w := 0; w < workers; w++ {
+		wg.Add(1)
+		go func() {
+			defer wg.Done()
+			for i := range jobs {
+				printMu.Lock()
+				fmt.Printf("l3: history %d of %s: mode=%s history_seed=%d dir=%s\n", i, prop, specs[i].Mode, specs[i].Seed, specs[i].Dir)
+				printMu.Unlock()
+				outcomes[i] = runOne(specs[i])
+			}
+		}()
+	}
+	for i := range specs {
+		jobs <- i
+	}
+	close(jobs)
+	wg.Wait()
+
+	completed := 0
+	for _, o := range outcomes {
+		id := fmt.Sprintf("history %d (mode %s, history_seed %d)", o.spec.Index, o.spec.Mode, o.spec.Seed)
+		if o.res == nil {
+			switch {
+			case o.timedOut:
+				fmt.Printf("l3: %s: child exceeded %v, killed\n", id, childBound)
+				r.Inconclusive("l3-child-watchdog")
+			case strings.Contains(o.stdio, "github.com/mutagen-io/mutagen/pkg") && (strings.Contains(o.stdio, "panic:") || strings.Contains(o.stdio, "fatal error:")):
+				r.Violation(map[string]string{"rule": "l3-crash", "mode": o.spec.Mode},
+					"the process running a real synchronization session crashed inside mutagen code during "+id,
+					map[string]any{"spec": o.spec, "output_tail": tail(o.stdio, 6000), "harness_log": harnessLog(o.spec.Dir, 80)})
+			default:
+				fmt.Printf("ERROR: l3: %s: child ended without a result (%v): %s\n", id, o.exitErr, tail(o.stdio, 2000))
+				r.Inconclusive("l3-child-failed")
+			}
+			continue
+		}
+		res := o.res
+		r.Eval(res.Evals)
+		for _, d := range res.Distinct {
+			r.Distinct(d)
+		}
+		for k, v := range res.Counts {
+			r.Count(k, v)
+		}
+		for _, s := range res.Samples {
+			r.Sample(s)
+		}
+		for _, reason := range res.Inconclusive {
+			r.Inconclusive(reason)
+		}
+		for _, v := range res.Violations {
+			if v.Witness == nil {
+				v.Witness = map[string]any{}
+			}
+			v.Witness["harness_log"] = harnessLog(o.spec.Dir, 120)
+			r.Violation(v.Sig, v.What, v.Witness)
+		}
+		switch {
+		case res.Panic != "" && strings.Contains(res.Panic, "github.com/mutagen-io/mutagen/pkg"):
+			r.Violation(map[string]string{"rule": "l3-panic", "mode": o.spec.Mode}, "panic inside mutagen code during "+id,
+				map[string]any{"spec": o.spec, "panic": res.Panic, "harness_log": harnessLog(o.spec.Dir, 80)})
+		case res.Panic != "":
+			fmt.Printf("ERROR: l3: %s: harness panic: %s\n", id, res.Panic)
+			r.Inconclusive("l3-harness-panic")
+		case res.HarnessError != "":
+			fmt.Printf("ERROR: l3: %s: harness error: %s\n", id, res.HarnessError)
+			r.Inconclusive("l3-harness-error")
+		case res.Completed:
+			completed++
+		}
+	}
+	r.Note("l3_wall_s", time.Since(began).Seconds())
+	r.Count("l3_histories", int64(n))
+	r.Count("l3_histories_completed", int64(completed))
+	r.Assume("L3: real synchronization.Manager, real local endpoints, two real ext4 roots, watch mode no-watch (cycles only on Flush, edits never race a cycle); one child process and one fresh data directory per history; ignore patterns " + strings.Join(ignorePatterns, " ") + "; shadow of last agreement kept from the harness's own lstat/sha1 snapshots")
+	if os.Getenv("VERIF_KEEP") == "" {
+		os.RemoveAll(base)
+	}
+}
